@@ -48,79 +48,115 @@ fn expand(buf: &[u8]) -> Option<[u32; N_GLYPHS]> {
     Some(sids)
 }
 
-/// Glyph -> name id for every glyph, and name id -> glyph for every id (the first glyph that
-/// carries it; the id of .notdef is 0), in all three charset formats.
-// @bound custom charset for 5 glyphs in a 17-byte buffer, format byte and every SID / range symbolic with every range inside the 16-bit id space (first + nLeft <= 65535, as TN5176 requires); query glyph any u16, query id any u16
-#[kani::proof]
-#[kani::unwind(18)]
-fn c18_charset_lookups() {
-    let buf: [u8; 17] = kani::any();
-    kani::assume(buf[0] <= 2);
-    let sids = match expand(&buf) {
-        Some(s) => s,
-        None => return,
-    };
+/// A symbolic charset of the given format with ranges inside the 16-bit id space, its expansion
+/// and the parsed value.
+fn charset_setup(format: u8, buf: &mut [u8; 17]) -> Option<[u32; N_GLYPHS]> {
+    buf[0] = format;
+    let sids = expand(&buf[..])?;
     // ranges stay inside the id space (the last range may extend past the glyph count)
-    if buf[0] != 0 {
-        let rec = if buf[0] == 1 { 3 } else { 4 };
+    if format != 0 {
+        let rec = if format == 1 { 3 } else { 4 };
         let mut at = 1;
         let mut covered = 0usize;
         while covered < N_GLYPHS - 1 {
-            let first = be16(&buf, at) as u32;
-            let n_left = if buf[0] == 1 { buf[at + 2] as u32 } else { be16(&buf, at + 2) as u32 };
+            let first = be16(&buf[..], at) as u32;
+            let n_left = if format == 1 { buf[at + 2] as u32 } else { be16(&buf[..], at + 2) as u32 };
             kani::assume(first + n_left <= 0xFFFF);
             covered += n_left as usize + 1;
             at += rec;
         }
     }
+    Some(sids)
+}
+
+fn charset_glyph_to_id(format: u8) {
+    let mut buf: [u8; 17] = kani::any();
+    let sids = match charset_setup(format, &mut buf) {
+        Some(s) => s,
+        None => return,
+    };
     let custom = ReadScope::new(&buf).read_dep::<CustomCharset<'_>>(N_GLYPHS).unwrap();
     let charset = Charset::Custom(custom);
-
     let g: u16 = kani::any();
     let got = charset.id_for_glyph(g);
     if (g as usize) < N_GLYPHS {
         assert!(got == Some(sids[g as usize] as u16), "id of a glyph");
-        kani::cover!(g == 4 && buf[0] == 1, "last glyph, format 1");
-    } else if buf[0] == 0 {
+        kani::cover!(g as usize == N_GLYPHS - 1, "last glyph");
+    } else if format == 0 {
         assert!(got.is_none(), "glyph beyond a format 0 charset");
     }
+}
 
+fn charset_id_to_glyph(format: u8) {
+    let mut buf: [u8; 17] = kani::any();
+    let sids = match charset_setup(format, &mut buf) {
+        Some(s) => s,
+        None => return,
+    };
+    let custom = ReadScope::new(&buf).read_dep::<CustomCharset<'_>>(N_GLYPHS).unwrap();
+    let charset = Charset::Custom(custom);
     let sid: u16 = kani::any();
     let found = charset.sid_to_gid(sid);
     if sid == 0 {
         assert!(found == Some(0));
-    } else {
-        let mut want = None;
-        let mut k = N_GLYPHS - 1;
-        while k >= 1 {
-            if sids[k] == sid as u32 {
-                want = Some(k as u16);
-            }
-            k -= 1;
+        return;
+    }
+    let mut want = None;
+    let mut k = N_GLYPHS - 1;
+    while k >= 1 {
+        if sids[k] == sid as u32 {
+            want = Some(k as u16);
         }
-        match want {
-            Some(k) => {
-                assert!(found == Some(k), "glyph of an id");
-                kani::cover!(k == 4 && buf[0] == 2, "last glyph, format 2");
-                kani::cover!(k == 3 && buf[0] == 1 && buf[3] == 0, "glyph in a later range");
-            }
-            None => {
-                // ranges may run past the glyph count: ids there name glyphs >= N_GLYPHS
-                assert!(!matches!(found, Some(k) if (k as usize) < N_GLYPHS), "id not in the charset");
-            }
+        k -= 1;
+    }
+    match want {
+        Some(k) => {
+            assert!(found == Some(k), "glyph of an id");
+            kani::cover!(k as usize == N_GLYPHS - 1, "last glyph");
+            // the first range holds one glyph, so glyph 3 lies in a later range
+            let first_n_left = if format == 1 { buf[3] as u16 } else { be16(&buf, 3) };
+            kani::cover!(format == 0 || (k == 3 && first_n_left == 0), "glyph in a later range");
+        }
+        None => {
+            // ranges may run past the glyph count: ids there name glyphs >= N_GLYPHS
+            assert!(!matches!(found, Some(k) if (k as usize) < N_GLYPHS), "id not in the charset");
         }
     }
 }
 
+macro_rules! charset_harness {
+    ($name:ident, $body:ident, $format:expr) => {
+        #[kani::proof]
+        #[kani::unwind(18)]
+        fn $name() {
+            $body($format);
+        }
+    };
+}
+
+// @bound custom charset format 0 for 5 glyphs, every SID symbolic; query glyph any u16
+charset_harness!(c18_charset_format0_glyph_to_id, charset_glyph_to_id, 0);
+// @bound custom charset format 0 for 5 glyphs, every SID symbolic; query id any u16 (the first glyph carrying it)
+charset_harness!(c18_charset_format0_id_to_glyph, charset_id_to_glyph, 0);
+// @bound custom charset format 1 for 5 glyphs (1 to 4 ranges), every first / nLeft symbolic with first + nLeft <= 65535; query glyph any u16
+charset_harness!(c18_charset_format1_glyph_to_id, charset_glyph_to_id, 1);
+// @bound custom charset format 1 for 5 glyphs (1 to 4 ranges), every first / nLeft symbolic with first + nLeft <= 65535; query id any u16
+charset_harness!(c18_charset_format1_id_to_glyph, charset_id_to_glyph, 1);
+// @tier thorough
+// @bound custom charset format 2 for 5 glyphs (1 to 4 ranges), every first / nLeft symbolic with first + nLeft <= 65535; query glyph any u16
+charset_harness!(c18_charset_format2_glyph_to_id, charset_glyph_to_id, 2);
+// @bound custom charset format 2 for 5 glyphs (1 to 4 ranges), every first / nLeft symbolic with first + nLeft <= 65535; query id any u16
+charset_harness!(c18_charset_format2_id_to_glyph, charset_id_to_glyph, 2);
+
 /// No panic in the range walk for any range contents (id space overflow included).
-// @bound custom charset formats 1 and 2 for 5 glyphs, every value symbolic; query glyph and id any u16
+// @bound custom charset formats 1 and 2 for 3 glyphs (1 or 2 ranges), every value symbolic; query glyph and id any u16
 // @release
 #[kani::proof]
-#[kani::unwind(18)]
+#[kani::unwind(10)]
 fn c18_charset_lookups_total() {
-    let buf: [u8; 17] = kani::any();
+    let buf: [u8; 9] = kani::any();
     kani::assume(buf[0] == 1 || buf[0] == 2);
-    if let Ok(custom) = ReadScope::new(&buf).read_dep::<CustomCharset<'_>>(N_GLYPHS) {
+    if let Ok(custom) = ReadScope::new(&buf).read_dep::<CustomCharset<'_>>(3) {
         let _ = custom.id_for_glyph(kani::any());
         let _ = custom.sid_to_gid(kani::any());
         kani::cover!(true, "parsed");
